@@ -36,7 +36,9 @@ impl Read for OneByte<'_> {
     }
 }
 
-pub const CHANNELS: [&str; 13] = [
+pub const CHANNELS: [&str; 15] = [
+    "Json::from_reader(interrupted before every chunk)",
+    "from_reader(interrupted before every chunk)",
     "from_str",
     "from_slice",
     "from_reader",
@@ -63,9 +65,28 @@ impl Read for Trickle<'_> {
     }
 }
 
+/// A reader that fails with `ErrorKind::Interrupted` before every chunk of `n` bytes it hands out
+/// (a signal arrived; the call is to be repeated).
+struct Interrupted<'a>(&'a [u8], usize, bool);
+impl Read for Interrupted<'_> {
+    fn read(&mut self, buf: &mut [u8]) -> std::io::Result<usize> {
+        if !self.2 {
+            self.2 = true;
+            return Err(std::io::Error::new(std::io::ErrorKind::Interrupted, "interrupted"));
+        }
+        self.2 = false;
+        let n = self.1.min(buf.len()).min(self.0.len());
+        buf[..n].copy_from_slice(&self.0[..n]);
+        self.0 = &self.0[n..];
+        Ok(n)
+    }
+}
+
 fn decode<T: DeserializeOwned>(channel: &str, text: &str) -> Result<Option<T>, String> {
     let r = guard(|| -> Option<T> {
         match channel {
+            "Json::from_reader(interrupted before every chunk)" => Json::from_reader(Interrupted(text.as_bytes(), 5, false)).ok(),
+            "from_reader(interrupted before every chunk)" => serde_json::from_reader(Interrupted(text.as_bytes(), 4096, false)).ok(),
             "from_str" => serde_json::from_str(text).ok(),
             "from_slice" => serde_json::from_slice(text.as_bytes()).ok(),
             "from_reader" => serde_json::from_reader(text.as_bytes()).ok(),
@@ -261,6 +282,34 @@ fn check<T: DeserializeOwned + PartialEq>(acc: &mut Acc, typ: &str, name: &str, 
     }
 }
 
+/// Channels the library itself chooses for one type: `MetadataWrapper::try_from_bytes`,
+/// `MetadataWrapper::from_bytes` with the matching type, `MetablockBuilder::from_raw_metadata`.
+fn check_wrapper_channels(acc: &mut Acc, name: &str, doc: &Value) {
+    use in_toto::models::{MetablockBuilder, MetadataType};
+    for (sname, text) in spellings(doc, 2) {
+        let base: Option<MetadataWrapper> = decode::<MetadataWrapper>("from_str", &text).ok().flatten();
+        let via: Vec<(&str, Guard<Option<MetadataWrapper>>)> = vec![
+            ("MetadataWrapper::try_from_bytes", guard(|| MetadataWrapper::try_from_bytes(text.as_bytes()).ok())),
+            ("MetablockBuilder::from_raw_metadata", guard(|| MetablockBuilder::from_raw_metadata(text.as_bytes()).ok().map(|b| b.build().metadata))),
+            ("MetadataWrapper::from_bytes(own type)", guard(|| {
+                let t = if doc.get("_type").and_then(|t| t.as_str()) == Some("layout") { MetadataType::Layout } else { MetadataType::Link };
+                MetadataWrapper::from_bytes(text.as_bytes(), t).ok()
+            })),
+        ];
+        for (ch, got) in via {
+            acc.evaluations += 1;
+            match got {
+                Guard::Panicked(l, m) => acc.violation(&format!("panic:{l}"), &format!("decoding panicked: {m}"), || json!({"type": "MetadataWrapper", "document": name, "channel": ch, "spelling": sname, "text": text})),
+                Guard::Done(g) => {
+                    if g != base {
+                        acc.violation(&format!("channel-dependent:MetadataWrapper:{ch}"), &format!("MetadataWrapper: {ch} and from_str disagree on the same text (spelling {sname})"), || json!({"type": "MetadataWrapper", "document": name, "channel": ch, "spelling": sname, "text": text, "compact": doc.to_string()}));
+                    }
+                }
+            }
+        }
+    }
+}
+
 fn node_mutations(v: &Value) -> Vec<Value> {
     // every node replaced by each of a few values, every member deleted (first two levels)
     let mut out = vec![];
@@ -362,8 +411,49 @@ pub fn run(tier: Tier) -> i32 {
             jobs.push((t, format!("mutation#{i}"), m));
         }
     }
+    // key ids that are not 64 characters long (or are, but not lower-case hex), wherever a key id is read
+    {
+        let good_sig = serde_json::to_value(&world::sign_link(world::link("s", Default::default(), Default::default()), &[keys::get("ed1")]).signatures[0]).unwrap();
+        let good_id = good_sig["keyid"].as_str().unwrap().to_string();
+        let block = world::block_value(&world::sign_link(world::link("s", world::arts(&[("a", 1)]), world::arts(&[("b", 2)])), &signers));
+        let lay = serde_json::to_value(&la[10].1).unwrap();
+        let step = serde_json::to_value(world::step("s", 1, &[keys::get("ed1")])).unwrap();
+        for (vn, kid) in [("empty", String::new()), ("8-chars", good_id[..8].to_string()), ("63-chars", good_id[..63].to_string()), ("65-chars", format!("{good_id}0")), ("upper-case", good_id.to_uppercase()), ("64-non-hex", "z".repeat(64)), ("64-bytes-multibyte", "é".repeat(32)), ("128-chars", good_id.repeat(2))] {
+            let mut s = good_sig.clone();
+            s["keyid"] = json!(kid);
+            jobs.push(("Signature", format!("keyid:{vn}"), s));
+            let mut b = block.clone();
+            b["signatures"][0]["keyid"] = json!(kid);
+            jobs.push(("Metablock", format!("signatures[0].keyid:{vn}"), b));
+            let mut st = step.clone();
+            st["pubkeys"][0] = json!(kid);
+            jobs.push(("Step", format!("pubkeys[0]:{vn}"), st.clone()));
+            let mut l = lay.clone();
+            if l["steps"].as_array().map(|a| !a.is_empty()).unwrap_or(false) {
+                l["steps"][0] = st;
+            } else {
+                l["steps"] = json!([st]);
+            }
+            jobs.push(("LayoutMetadata", format!("steps[0].pubkeys[0]:{vn}"), l.clone()));
+            jobs.push(("MetadataWrapper", format!("steps[0].pubkeys[0]:{vn}"), l));
+        }
+    }
+    // large documents: a link whose captured output is 70 KB / 1.1 MB
+    for size in if thorough { vec![70_000usize, 1_100_000] } else { vec![70_000usize] } {
+        let mut l = world::link("s", world::arts(&[("a", 1)]), world::arts(&[("b", 2)]));
+        let big: String = (0..size).map(|i| ['a', 'b', '\n', 'c'][i % 4]).collect();
+        l.byproducts = l.byproducts.clone().set_stdout(big);
+        let v = serde_json::to_value(&l).unwrap();
+        jobs.push(("LinkMetadata", format!("stdout of {size} characters"), v.clone()));
+        jobs.push(("MetadataWrapper", format!("stdout of {size} characters"), v.clone()));
+        jobs.push(("Metablock", format!("stdout of {size} characters"), world::block_value(&world::sign_link(l, &signers[..1]))));
+    }
     let accs = util::par_fold(&jobs, Acc::new, |acc, i, (typ, name, doc)| {
         acc.nontrivial += 1;
+        let max_tokens = if name.starts_with("stdout of") { 3 } else { max_tokens };
+        if *typ == "MetadataWrapper" && (i % 7 == 0 || name.starts_with("stdout of") || name.starts_with("steps[0]")) {
+            check_wrapper_channels(acc, name, doc);
+        }
         match *typ {
             "MetadataWrapper" => check::<MetadataWrapper>(acc, typ, name, doc, max_tokens),
             "LinkMetadata" => check::<LinkMetadata>(acc, typ, name, doc, max_tokens),
@@ -390,7 +480,7 @@ pub fn run(tier: Tier) -> i32 {
     });
     c.acc = Acc::merge_all(accs);
     c.acc.note_n("documents", jobs.len() as u64);
-    c.rule = format!("documents: all C16 text documents (as MetadataWrapper and as Link/LayoutMetadata), every rule form standalone plus malformed rules, steps, inspections, byproducts, signed blocks, all fixture keys and signatures, C19 predicates and statements (through the wrappers and the typed structs), and node-level mutations of four fixtures (mostly rejected); each in spellings compact / pretty / whitespace-heavy / all strings \\u-escaped / one string token escaped at a time (up to {max_tokens} tokens per document) x 13 channels (incl. readers that return short reads); baseline = from_str on the compact spelling. distinct_nontrivial = (type, document) pairs");
+    c.rule = format!("documents: all C16 text documents (as MetadataWrapper and as Link/LayoutMetadata), every rule form standalone plus malformed rules, steps, inspections, byproducts, signed blocks, all fixture keys and signatures, C19 predicates and statements (through the wrappers and the typed structs), and node-level mutations of four fixtures (mostly rejected); each in spellings compact / pretty / whitespace-heavy / all strings \\u-escaped / one string token escaped at a time (up to {max_tokens} tokens per document) x 15 channels (incl. readers that return short reads and readers that are interrupted before every chunk), plus for MetadataWrapper the channels try_from_bytes / from_bytes / MetablockBuilder::from_raw_metadata; key ids of 8 wrong shapes wherever a key id is read; links with 70 KB (thorough: and 1.1 MB) of captured output; baseline = from_str on the compact spelling. distinct_nontrivial = (type, document) pairs");
     c.bound_completed = "complete within the listed documents".into();
     c.assume("serde_json's own parsing is identical across channels for serde_json::Value (the from_value and Json::deserialize channels go through it)");
     c.finish()
